@@ -96,6 +96,7 @@ func (op *Operation) Stats() *Stats {
 }
 
 func (op *Operation) Stop() {
+	verifEv(op, verifSimple("Stop", nil))
 	if op.stopping.Set() {
 		go func() {
 			defer op.stopped.Set()
@@ -103,6 +104,7 @@ func (op *Operation) Stop() {
 			defer op.mu.Unlock()
 			for {
 				if op.outstanding == 0 {
+					verifEv(op, verifSimple("StopperDone", op))
 					break
 				}
 				cond := op.cond.Signaled()
@@ -125,13 +127,16 @@ func (op *Operation) Stalled() events.Active {
 func (op *Operation) addNodeLocked(n types.AddrMaybeId) (err error) {
 	if _, ok := op.queried[addrString(n.Addr.String())]; ok {
 		err = errors.New("already queried")
+		verifEv(op, verifAddNode(n, "queried", op))
 		return
 	}
 	if !op.input.NodeFilter(n) {
 		err = errors.New("failed filter")
+		verifEv(op, verifAddNode(n, "filtered", op))
 		return
 	}
 	op.unqueried = op.unqueried.Add(n)
+	verifEv(op, verifAddNode(n, "added", op))
 	op.cond.Broadcast()
 	return nil
 }
@@ -190,6 +195,7 @@ func (op *Operation) run() {
 	defer op.mu.Unlock()
 	for {
 		if op.stopping.IsSet() {
+			verifEv(op, verifSimple("RunExit", op))
 			return
 		}
 		for op.outstanding < op.input.Alpha && op.haveQuery() {
@@ -199,6 +205,7 @@ func (op *Operation) run() {
 		if (!op.haveQuery() || op.input.Alpha == 0) && op.outstanding == 0 {
 			stalled = op.stalled.Signal()
 		}
+		verifEv(op, verifRunEval(stalled != nil, op))
 		queryCondSignaled := op.cond.Signaled()
 		op.mu.Unlock()
 		select {
@@ -214,15 +221,18 @@ func (op *Operation) addClosest(node krpc.NodeInfo, data interface{}) {
 	var ami types.AddrMaybeId
 	ami.FromNodeInfo(node)
 	if !op.input.NodeFilter(ami) {
+		verifEv(op, verifClosest(node, false, false, op))
 		return
 	}
 	if !op.input.DataFilter(data) {
+		verifEv(op, verifClosest(node, true, false, op))
 		return
 	}
 	op.closest = op.closest.Push(k_nearest_nodes.Elem{
 		Key:  node.ToNodeInfoAddrPort(),
 		Data: data,
 	})
+	verifEv(op, verifClosest(node, true, true, op))
 }
 
 func (op *Operation) Closest() *k_nearest_nodes.Type {
@@ -233,11 +243,13 @@ func (op *Operation) startQuery() {
 	a := op.popClosestUnqueried()
 	op.markQueried(a.Addr)
 	op.outstanding++
+	verifEv(op, verifStartQuery(a, op))
 	go func() {
 		defer func() {
 			op.mu.Lock()
 			defer op.mu.Unlock()
 			op.outstanding--
+			verifEv(op, verifQueryDone(a, op))
 			op.cond.Broadcast()
 		}()
 		// log.Printf("traversal querying %v", a)
@@ -251,6 +263,7 @@ func (op *Operation) startQuery() {
 			}
 		}()
 		res := op.input.DoQuery(ctx, a.Addr.ToNodeAddr())
+		verifEv(op, verifReturned(a, res))
 		cancel()
 		if res.ResponseFrom != nil {
 			func() {
